@@ -282,9 +282,14 @@ func decodeAll(p *dict.Parser, wire []byte) (fail *ev.Failure, reached bool) {
 	}
 	if truncated := hdr != nil && int(hdr.MessageLength) > len(wire); truncated || len(wire) <= 1024 {
 		var merr error
-		sctpRead := func() (used uint64, fail *ev.Failure) {
+		// others > 0: while the claimed body is awaited, that many 4-byte records arrive on streams
+		// not seen before (they are buffered for later): what they cost is bounded by what they carry
+		sctpRead := func(others int) (used uint64, fail *ev.Failure) {
 			be := memnet.NewSCTP()
 			be.Feed(memnet.Chunk{Stream: 3, Data: wire})
+			for i := 0; i < others; i++ {
+				be.Feed(memnet.Chunk{Stream: uint16(4 + i), Data: []byte{1, 0, 0, byte(20 + i)}})
+			}
 			be.FeedEOF()
 			sc := diam.NewVerifSCTPConn(be)
 			start := totalAlloc()
@@ -298,18 +303,23 @@ func decodeAll(p *dict.Parser, wire []byte) (fail *ev.Failure, reached bool) {
 			diam.ReleaseVerifSCTPConn(sc) // the hook's registry must not grow with the number of cases
 			return
 		}
-		used, f := sctpRead()
-		if f != nil {
-			return f, reached
-		}
-		if bound := uint64(truncA + truncB*len(wire)); truncated && used > bound {
-			// TotalAlloc is process-wide: measure once more before believing it
-			if used2, _ := sctpRead(); used2 < used {
-				used = used2
+		for _, others := range []int{0, 24} {
+			if others > 0 && !truncated {
+				continue
 			}
-			if used > bound {
-				return ev.Failf("over-allocation", "ReadMessage from a multi-stream (SCTP) reader: a %d-byte input whose header declares %d bytes made it allocate %d bytes (bound %d, measured twice); error: %v; input starts % x",
-					len(wire), declaredLen(hdr), used, bound, merr, clip(wire)), reached
+			used, f := sctpRead(others)
+			if f != nil {
+				return f, reached
+			}
+			if bound := uint64(truncA + truncB*(len(wire)+4*others)); truncated && used > bound {
+				// TotalAlloc is process-wide: measure once more before believing it
+				if used2, _ := sctpRead(others); used2 < used {
+					used = used2
+				}
+				if used > bound {
+					return ev.Failf("over-allocation", "ReadMessage from a multi-stream (SCTP) reader: a %d-byte input whose header declares %d bytes, followed by %d 4-byte records on other streams, made it allocate %d bytes (bound %d, measured twice); error: %v; input starts % x",
+						len(wire), declaredLen(hdr), others, used, bound, merr, clip(wire)), reached
+				}
 			}
 		}
 	}
